@@ -2,26 +2,108 @@
 
 Theorems: coq/theories/Props/C01.v.  Tie: correspondence + direct oracle — generated problems are explored through
 the real UPSequentialSimulator; for every (reachable state, ground action instance) Coq recomputes the documented step
-`spec_step false` (property oracle) and the model of the code `sim_apply true` on the same pair and compares verdict
-and successor; goal verdicts likewise.
+`spec_step false` (property oracle), the semantic-level model of the code `sim_apply true` and the model WITH the
+grounding step `sim_apply_grounded true` (Planning/Ground.v: parameter substitution, the C11 simplifier model,
+syntactic conflict check, vanishing forall variables) on the same pair and compares verdict and successor; goal
+verdicts likewise.
 """
 import json
+import math
+import os
 
 from harness import simexplore as sx
 
 META = {
     "level": "proof",
-    "technique": "Coq proof (ordered effect loop = declarative per-fluent combination, by a per-fluent automaton and induction over effect lists and plans) + model/implementation correspondence on explored (state, action) pairs by vm_compute",
-    "text": "The Gallina model of apply_unsafe/_evaluate_effect is proved equal to the declarative successor semantics for all problems, states, actions and plans; the model and the declarative semantics are both compared with the real simulator on every explored (state, ground action) pair.",
-    "note": "Trusted: Coq kernel/vm_compute, harness serialiser. Modelled at the semantic level: grounding = parameter binding (GrounderHelper's syntactic simplification is not modelled; deviations show up as correspondence failures), StateEvaluator = eval with short-circuit quantifiers, simulated effects not modelled (not generated). Bounded types are derived from fluent declarations in Coq.",
+    "technique": "Coq proof (ordered effect loop = declarative per-fluent combination, by a per-fluent automaton and induction over effect lists and plans; grounding step = identity on total information, via C11's simplifier soundness) + model/implementation correspondence on explored (state, action) pairs by vm_compute",
+    "text": "The Gallina model of apply_unsafe/_evaluate_effect is proved equal to the declarative successor semantics for all problems, states, actions and plans; the model of GrounderHelper.ground_action / create_action_with_given_subs (substitution, Simplifier model of C11, syntactic conflict check, vanishing forall variables) is proved to change nothing when every read is defined, no rebuilt effects conflict syntactically and no forall variable vanishes, and the three ways it deviates otherwise are proved as witnesses inside the model; the declarative semantics, the semantic-level model and the grounded model are all compared with the real simulator on every explored (state, ground action) pair.",
+    "note": "Trusted: Coq kernel/vm_compute, harness serialiser (incl. the user-type table object -> type, type -> ancestors passed to the grounded model). Grounding is now modelled through the C11 simplifier model (Planning/Ground.v: sim_apply_grounded; env.simplifier without static fluents, as GrounderHelper(prune_actions=False) configures it); FNode.substitute of parameters is the plain homomorphic replacement; StateEvaluator = eval with short-circuit quantifiers; not modelled: simulated effects (not generated), a simplifier call that raises (constant zero divisor; reported separately), Real-typed action parameters and interpreted functions of Real/user return type (node tags). Bounded types are derived from fluent declarations in Coq. No axioms.",
 }
 
 IMPORTS = ["UPV.Core.Expr", "UPV.Core.Eval", "UPV.Core.Interp", "UPV.Planning.Problem", "UPV.Planning.Sem", "UPV.Corr.Corr_C01"]
+IMPORTS_G = IMPORTS + ["UPV.Planning.Ground", "UPV.Corr.Corr_C01g"]      # the comparison with the grounded model (C01 only)
+
+# bits of Corr_C01g.codeg above those of Corr_C01.code
+G_DIFF, G_CONFLICT, G_VARS, G_MATTERS, G_FUEL, G_RAISES, G_OUTSIDE, G_ISAPP = 32, 64, 128, 256, 512, 1024, 2048, 4096
 
 
-def gather(ctx, n_problems, depth, max_states, max_inst, knobs=None):
+def extra_corpus():
+    """C01's own corner problems (not shared with C03/C04): forall effects whose quantified variable vanishes when the
+    grounded action is simplified, next to forall effects whose variable stays."""
+    from fractions import Fraction
+    from unified_planning.shortcuts import Fluent, Object, Problem, InstantaneousAction, Variable
+    from unified_planning.environment import Environment
+    env = Environment()
+    tm, em = env.type_manager, env.expression_manager
+    T = tm.UserType("T")
+    p = Problem("forall-variable-vanishes", env)
+    o1, o2 = Object("o1", T, env), Object("o2", T, env)
+    p.add_objects([o1, o2])
+    r = Fluent("r", tm.IntType(0, 6), environment=env)
+    w = Fluent("w", tm.IntType(0, 6), t=T, environment=env)
+    p.add_fluent(r, default_initial_value=1)
+    p.add_fluent(w, default_initial_value=2)
+    v = Variable("v", T, env)
+    a = InstantaneousAction("inc_taut", _env=env)                      # forall v. if v == v then r += 1   (v vanishes)
+    a.add_increase_effect(r, 1, em.Equals(v, v), forall=(v,))
+    b = InstantaneousAction("dec_param", l=T, _env=env)                # forall v. if v == l then r -= 1   (v stays)
+    b.add_decrease_effect(r, 1, em.Equals(v, b.parameter("l")), forall=(v,))
+    c = InstantaneousAction("inc_all", _env=env)                       # forall v. w(v) += 1               (v stays)
+    c.add_increase_effect(w(v), 1, forall=(v,))
+    d = InstantaneousAction("set_taut", _env=env)                      # forall v. if v == v then r := 3   (v vanishes, harmless)
+    d.add_effect(r, 3, em.Equals(v, v), forall=(v,))
+    for x in (a, b, c, d):
+        p.add_action(x)
+    p.add_goal(em.Equals(r, 3))
+    out = [sx.HandProblem(p, "forall-variable-vanishes")]
+    # values that the syntactic conflict check can only identify AFTER simplification (k + 1 vs 2; Int 3 vs Real 3), and a
+    # value whose simplification drops the read of an undefined fluent (u * 0)
+    env = Environment()
+    tm, em = env.type_manager, env.expression_manager
+    T = tm.UserType("T")
+    p = Problem("values-equal-after-simplification", env)
+    o1, o2 = Object("o1", T, env), Object("o2", T, env)
+    p.add_objects([o1, o2])
+    x = Fluent("x", tm.IntType(0, 5), t=T, environment=env)
+    q = Fluent("q", tm.RealType(0, 5), t=T, environment=env)
+    y = Fluent("y", tm.IntType(0, 5), environment=env)
+    u = Fluent("u", tm.IntType(), environment=env)          # unbounded, so that it may stay without value
+    p.add_fluent(x, default_initial_value=0)
+    p.add_fluent(q, default_initial_value=0)
+    p.add_fluent(y, default_initial_value=1)
+    p.add_fluent(u)
+    a = InstantaneousAction("two_sums", l1=T, l2=T, k=tm.IntType(1, 2), _env=env)
+    a.add_effect(x(a.parameter("l1")), em.Plus(a.parameter("k"), 1))
+    a.add_effect(x(a.parameter("l2")), 2)
+    b = InstantaneousAction("zero_times_undefined", _env=env)
+    b.add_effect(y, em.Times(u, 0))
+    c = InstantaneousAction("int_and_real", l1=T, l2=T, _env=env)
+    c.add_effect(q(c.parameter("l1")), 3)
+    c.add_effect(q(c.parameter("l2")), em.Real(Fraction(3)))
+    for z in (a, b, c):
+        p.add_action(z)
+    p.add_goal(em.Equals(x(o1), 2))
+    out.append(sx.HandProblem(p, "values-equal-after-simplification"))
+    return out
+
+
+def tytab(ex):
+    """The user-type table the grounder's simplifier reads (Ground.tytab): object -> its type, type -> ancestors."""
+    from harness.core import gn, glist, gpair
+    n = ex.ser.names
+    p = ex.gen.problem
+    objs = glist([gpair(gn(n.obj(o)), gn(n.ty(o.type))) for o in p.all_objects])
+    anc = glist([gpair(gn(n.ty(t)), glist([gn(n.ty(a)) for a in t.ancestors])) for t in ex.ser.types])
+    return "{| tt_obj := %s; tt_anc := %s |}" % (objs, anc)
+
+
+def preamble_g(exs):
+    return preamble(exs) + "\n".join("Definition T%d : tytab := %s." % (ex.idx, tytab(ex)) for ex in exs if ex.skipped is None) + "\n"
+
+
+def gather(ctx, n_problems, depth, max_states, max_inst, knobs=None, extra=False):
     exs = []
-    for hp in sx.corpus_problems():          # hand-written corner cases run first
+    for hp in sx.corpus_problems() + (extra_corpus() if extra else []):          # hand-written corner cases run first
         exs.append(sx.explore_problem(len(exs), ctx.rng, depth, max_states, 40, {}, gen=hp))
     for i in range(n_problems):
         exs.append(sx.explore_problem(len(exs), ctx.rng, depth, max_states, max_inst, knobs or {},
@@ -101,16 +183,34 @@ def forall_variable_vanishes(ex, rec):
     return False
 
 
-def classify(ex, rec, code):
-    """tags for a failing pair (narrow: call site + shape)"""
+def has_forall_incdec(rec):
+    return any(e.is_forall() and not e.is_assignment() for e in rec["action"].effects)
+
+
+def classify(ex, rec, code, grounded=False):
+    """tags for a failing pair (narrow: call site + shape).
+
+    grounded=False: `code` comes from Corr_C01.code (C03's diagnosis); the three grounder-related shapes are recognised
+    by the Python heuristics above.  grounded=True: `code` comes from Corr_C01g.codeg; the Coq verdict is used: whether
+    the implementation equals the grounded model (bit 32), whether the MODEL's grounding was rejected by the syntactic
+    conflict check (bit 64) and whether a grounded effect lost a forall variable (bit 128).  A dropped read of an
+    undefined fluent has no bit of its own (it is what remains when the grounded model is applicable and the strict
+    documented step is not), so the Python heuristic still names it."""
     tags = ["c01"]
-    if rec["apply"] is not None and code & 1 and code & 2 and dropped_undefined_read(ex, rec):
+    dev = bool(code & 1 and code & 2)                      # differs from the documented step and from the semantic-level model
+    if rec["apply"] is not None and dev and dropped_undefined_read(ex, rec):
         tags.append("grounder-simplification-drops-undefined-read")
         tags.append("impl-applicable")
-    if code & 1 and code & 2 and not rec["raised"] and forall_variable_vanishes(ex, rec):
+    if grounded:
+        vanishes = bool(code & G_VARS) and has_forall_incdec(rec)
+        rejects = bool(code & G_CONFLICT)
+    else:
+        vanishes = dev and not rec["raised"] and forall_variable_vanishes(ex, rec)
+        rejects = dev and rec["apply"] is None and not rec["raised"] and grounding_rejects_equal_assignments(ex, rec)
+    if dev and not rec["raised"] and vanishes:
         tags.append("forall-variable-vanishes-after-grounding")
         tags.append("increase-or-decrease")
-    if rec["apply"] is None and not rec["raised"] and code & 1 and code & 2 and grounding_rejects_equal_assignments(ex, rec):
+    if rec["apply"] is None and not rec["raised"] and dev and rejects:
         tags.append("grounding-rejects-equal-valued-assignments")
         tags.append("impl-inapplicable")
     if rec["raised"]:
@@ -118,25 +218,39 @@ def classify(ex, rec, code):
         tags.append(rec["raised"].split(":")[0] + ":" + rec["raised"].split(":")[1])
     if code & 1 and not code & 2:
         tags.append("impl-equals-short-circuit-model")
-    if code & 1 and code & 2:
-        tags.append("impl-differs-from-model-and-spec")
+    if dev:
+        tags.append("impl-differs-from-model-and-spec")    # "model" = the semantic-level model sim_apply (no grounding)
+    if grounded:
+        tags.append("impl-differs-from-grounded-model" if code & (G_DIFF | G_ISAPP) else "impl-equals-grounded-model")
+        if code & G_CONFLICT:
+            tags.append("grounded-model:syntactic-conflict")
+        if code & G_VARS:
+            tags.append("grounded-model:forall-variable-dropped")
+        if code & G_FUEL:
+            tags.append("grounded-model:simplifier-fuel")
+        if code & G_RAISES:
+            tags.append("grounded-model:simplifier-raises")
     if code & 4:
         tags.append("ill-typed-effects")
     return tags
 
 
 def run(ctx):
-    ok_proofs = ctx.check_props(extra=["theories/Corr/Corr_C01.v"])
+    ok_proofs = ctx.check_props(extra=["theories/Corr/Corr_C01.v", "theories/Corr/Corr_C01g.v"])
     if ctx.quick:
-        exs = gather(ctx, 45, depth=2, max_states=5, max_inst=14)
+        exs = gather(ctx, 45, depth=2, max_states=5, max_inst=14, extra=True)
     else:
-        exs = gather(ctx, 500, depth=4, max_states=14, max_inst=30)
+        exs = gather(ctx, 500, depth=4, max_states=14, max_inst=30, extra=True)
     live = [ex for ex in exs if ex.skipped is None]
-    pre = preamble(live)
+    pre = preamble_g(live)
+    procs = max(1, int(os.environ.get("VERIF_COQ_PROCS", "3") or 3))     # coqc processes used for the case files
     cases, owners = [], []
     gcases, gowners = [], []
     stats = {"problems": len(exs), "skipped": {}, "pairs": 0, "applicable": 0, "inapplicable": 0, "raised": 0,
-             "states": 0, "goal_states": 0, "effects_kinds": {}}
+             "states": 0, "goal_states": 0, "effects_kinds": {},
+             "grounded": {"impl_equals_grounded_model": 0, "grounding_changes_the_semantic_model": 0,
+                          "syntactic_conflicts": 0, "forall_variable_dropped": 0,
+                          "inside_static_hypotheses_of_grounded_theorem": 0, "semantic_model_only_differs": 0}}
     for ex in exs:
         if ex.skipped is not None:
             key = ex.skipped.split(":")[0]
@@ -154,31 +268,49 @@ def run(ctx):
                 stats["applicable"] += 1
             else:
                 stats["inapplicable"] += 1
-            cases.append("(P%d, %s)" % (ex.idx, sx.ser_pair_case(ex, rec)))
+            cases.append("(T%d, P%d, %s)" % (ex.idx, ex.idx, sx.ser_pair_case(ex, rec)))
             owners.append((ex, rec))
         for srec in ex.states:
             stats["states"] += 1
             stats["goal_states"] += 1 if srec["isgoal"] else 0
             gcases.append("(P%d, %s)" % (ex.idx, sx.ser_goal_case(ex, srec)))
             gowners.append((ex, srec))
-    codes = ctx.coq_codes(cases, "fun pc => code (fst pc) (snd pc)", imports=IMPORTS, preamble=pre, shard=200, label="pairs")
-    gcodes = ctx.coq_codes(gcases, "fun pc => gcode (fst pc) (snd pc)", imports=IMPORTS, preamble=pre, shard=300, label="goals")
+    codes = ctx.coq_codes(cases, "fun t => codeg (fst (fst t)) (snd (fst t)) (snd t)", imports=IMPORTS_G, preamble=pre,
+                          shard=max(200, math.ceil(len(cases) / procs)), label="pairs")
+    gcodes = ctx.coq_codes(gcases, "fun pc => gcode (fst pc) (snd pc)", imports=IMPORTS_G, preamble=pre,
+                           shard=max(300, math.ceil(len(gcases) / procs)), label="goals")
     nontrivial = set()
     for (ex, rec), code in zip(owners, codes):
         key = json.dumps(sx.pair_json(ex, rec), default=str, sort_keys=True)
         # non-trivial: applicable, or inapplicable although every precondition holds (conflict / invariant / undefined)
         if rec["apply"] is not None or rec["isapp"] is False:
             nontrivial.add(key)
+        g = stats["grounded"]
+        g["impl_equals_grounded_model"] += not code & (G_DIFF | G_ISAPP)
+        g["grounding_changes_the_semantic_model"] += bool(code & G_MATTERS)
+        g["syntactic_conflicts"] += bool(code & G_CONFLICT)
+        g["forall_variable_dropped"] += bool(code & G_VARS)
+        g["inside_static_hypotheses_of_grounded_theorem"] += not code & G_OUTSIDE
         bad_spec = bool(code & 1) or bool(rec["raised"]) or rec.get("state_changed")
-        bad_model = bool(code & 2)
+        # the model of the code is the GROUNDED model; the semantic-level model (bit 1 of the code, value 2) is kept
+        # as a second opinion: where it alone differs, grounding mattered and the grounded model explains the
+        # implementation, which is not a failure
+        bad_model = bool(code & (G_DIFF | G_ISAPP | G_FUEL))
+        g["semantic_model_only_differs"] += bool(code & 2) and not bad_spec and not bad_model
         if bad_spec or bad_model:
-            tags = classify(ex, rec, code)
+            tags = classify(ex, rec, code, grounded=True)
+            if bad_spec and bad_model:
+                what = "the documented semantics AND from the grounded model (corr:C01:sim_apply_grounded)"
+            elif bad_spec:
+                what = "the documented semantics"
+            else:
+                what = "the grounded model only (corr:C01:sim_apply_grounded)"
             ctx.fail("oracle" if bad_spec else "corr",
-                     "simulator step differs from %s on a (state, action) pair (code %d; %s)" % (
-                         "the documented semantics" if bad_spec else "the model only (corr:C01:sim_apply)", code, rec["raised"]),
+                     "simulator step differs from %s on a (state, action) pair (code %d; %s)" % (what, code, rec["raised"]),
                      tags,
                      {"pair": sx.pair_json(ex, rec), "problem_text": str(ex.gen.problem), "code_bits": code,
-                      "names": ex.ser.names.table(), "theorem_or_corr": "corr:C01:sim_apply / oracle spec_step"},
+                      "names": ex.ser.names.table(),
+                      "theorem_or_corr": "corr:C01:sim_apply_grounded / corr:C01:sim_apply / oracle spec_step"},
                      bad_spec)
     for (ex, srec), code in zip(gowners, gcodes):
         if code & 1 or srec["raised"]:
@@ -194,7 +326,7 @@ def run(ctx):
     ctx.finish({
         "evaluations": len(cases) + len(gcases),
         "distinct_nontrivial": len(nontrivial),
-        "rule": "generated problems (C01 grammar) explored through the real simulator breadth-first to the tier's depth; one case per (reachable state, ground action instance); non-trivial = applicable, or is_applicable answered False; distinct by (problem, state, action, args)",
+        "rule": "hand-written corner problems + generated problems (C01 grammar) explored through the real simulator breadth-first to the tier's depth (+ long walks); one case per (reachable state, ground action instance), each compared with spec_step false, sim_apply true and sim_apply_grounded true; non-trivial = applicable, or is_applicable answered False; distinct by (problem, state, action, args)",
         "samples": samples,
         "distribution": stats,
         "traces_validated_against_impl": len(cases),
